@@ -25,6 +25,9 @@ Flow<W> &CircuitFlowGeneratorSolver<W>::add_row() {
             .output = PauliString<W>(num_qubits),
             .measurements = {},
         });
+    if (table.size() > imag_bits.num_bits_padded()) {
+        imag_bits.preserving_resize(table.size() * 2);
+    }
     return table.back();
 }
 
@@ -424,6 +427,9 @@ void CircuitFlowGeneratorSolver<W>::elimination_step(std::span<const size_t> eli
         }
     }
     std::swap(table[pivot], table[num_eliminated]);
+    bool imag_pivot = imag_bits[pivot];
+    imag_bits[pivot] = (bool)imag_bits[num_eliminated];
+    imag_bits[num_eliminated] = imag_pivot;
     num_eliminated++;
 }
 
@@ -511,6 +517,9 @@ template <size_t W>
 void CircuitFlowGeneratorSolver<W>::final_canonicalize_into_table() {
     for (auto &row : measurements_only_table) {
         table.push_back(std::move(row));
+    }
+    if (table.size() > imag_bits.num_bits_padded()) {
+        imag_bits.preserving_resize(table.size());
     }
 
     size_t num_eliminated = 0;
@@ -624,7 +633,7 @@ std::vector<std::optional<std::vector<int32_t>>> solve_for_flow_measurements(con
     std::vector<std::optional<std::vector<int32_t>>> result;
     for (size_t k = 0; k < flows.size(); k++) {
         Flow<W> &solved = solver.table[k + num_circuit_flows];
-        if (solver.imag_bits[k] || !solved.input.ref().has_no_pauli_terms() || !solved.output.ref().has_no_pauli_terms()) {
+        if (solver.imag_bits[k + num_circuit_flows] || !solved.input.ref().has_no_pauli_terms() || !solved.output.ref().has_no_pauli_terms()) {
             result.push_back(std::optional<std::vector<int32_t>>{});
             continue;
         }
